@@ -1,5 +1,6 @@
 """C14 bounded stand-in: real pipelines, resolver and backend, all permutations / bracketings of small pipeline lists."""
 from __future__ import annotations
+import copy
 import itertools
 from pyvc.api import *
 
@@ -165,6 +166,43 @@ class C14Bounded(Bounded):
                 out0 = f"{type(e).__name__}: {e}"
             if out0 != want0:
                 fail(f"backend with backend and output-format pipelines created with {label} as user pipeline: output {out0!r}, expected {want0!r} (the stages of the two remaining pipelines, nothing skipped)", ["no user pipeline", label])
+        # items INSIDE a nest transformation keep working after their pipeline was an operand of + (state set inside the nest, read outside)
+        nest_item = {"id": "n", "type": "nest", "items": [{"id": "inner", "type": "set_state", "key": "idx", "val": "w"}, {"id": "innermap", "type": "field_name_mapping", "mapping": {"f1": "F1"}}]}
+        reader = {"id": "r", "type": "add_condition", "conditions": {"module": "sysmon"}, "rule_conditions": [{"type": "processing_state", "key": "idx", "val": "w"}]}
+        single = lambda: ProcessingPipeline.from_dict({"name": "s", "priority": 10, "transformations": [copy.deepcopy(nest_item), copy.deepcopy(reader)]})
+        p_n = lambda: ProcessingPipeline.from_dict({"name": "a", "priority": 10, "transformations": [copy.deepcopy(nest_item)]})
+        p_r = lambda: ProcessingPipeline.from_dict({"name": "b", "priority": 20, "transformations": [copy.deepcopy(reader)]})
+        try:
+            want_n = TextQueryTestBackend(single()).convert(SigmaCollection.from_yaml(RULE.replace('|expand: "%v%"', ": x")))
+        except Exception as e:
+            want_n = [f"{type(e).__name__}: {e}"]
+        for label, mk in (("p1 + p2", lambda: p_n() + p_r()), ("(empty + p1) + p2", lambda: (ProcessingPipeline() + p_n()) + p_r()), ("sum", lambda: sum([p_n(), p_r()])),
+                          ("resolver", lambda: ProcessingPipelineResolver({"a": p_n(), "b": p_r()}).resolve(["b", "a"])), ("single + empty", lambda: single() + ProcessingPipeline())):
+            ev += 1
+            nontriv += 1
+            try:
+                got_n = TextQueryTestBackend(mk()).convert(SigmaCollection.from_yaml(RULE.replace('|expand: "%v%"', ": x")))
+            except Exception as e:
+                got_n = [f"{type(e).__name__}: {e}"]
+            if got_n != want_n or "module" not in str(want_n) or "F1" not in str(want_n):
+                fail(f"a nest transformation that sets state and maps a field, then an item that reads the state - composed as {label}: {got_n}, as one pipeline: {want_n}", ["nest after +", label])
+        # every emitted query goes through the post-processing items of all three stages - also the query of a correlation rule that is
+        # itself referenced by another correlation rule
+        plainr = lambda n: {"title": n, "name": n, "logsource": {"category": "c"}, "detection": {"s": {"f1": n}, "condition": "s"}}
+        corr_ = lambda n, rules, gen=None: {"title": n, "name": n, "correlation": {"type": "event_count", "rules": rules, "timespan": "5m", "group-by": ["u"], "condition": {"gte": 2}, **({"generate": gen} if gen is not None else {})}}
+        for label, docs_ in (("a correlation rule referenced by another", [plainr("a"), corr_("c1", ["a"]), corr_("c2", ["c1"])]), ("generation switched on along the chain", [plainr("a"), corr_("c1", ["a"], True), corr_("c2", ["c1"], True)]),
+                             ("two chained on one base", [plainr("a"), plainr("b"), corr_("c1", ["a", "b"]), corr_("c2", ["c1"]), corr_("c3", ["c2"])])):
+            ev += 1
+            nontriv += 1
+            try:
+                out_c = B(make(8)).convert(SigmaCollection.from_dicts(copy.deepcopy(docs_)))
+                out_c = out_c[0] if isinstance(out_c, list) and len(out_c) == 1 else out_c
+                inner = out_c[len("<9(<8(<7("):-3] if isinstance(out_c, str) and out_c.startswith("<9(<8(<7(") else None
+                segs = inner.split("|7|") if inner is not None else None
+            except Exception as e:
+                out_c, segs = f"{type(e).__name__}: {e}", None
+            if not segs or any(not (sg.startswith("[9[8[7") and sg.endswith("7]8]9]")) for sg in segs):
+                fail(f"{label}: output {str(out_c)[:300]!r} - every emitted query must carry the post-processing of all three stages ([9[8[7 ... 7]8]9])", ["chained correlations", label])
         # finalizers run once on the whole output also when no query was emitted (an empty collection; every rule failed)
         for label, mkcol, kw in (("an empty collection", lambda: SigmaCollection([]), {}),
                                  ("a collection whose only rule fails", lambda: SigmaCollection.from_yaml(RULE.replace("condition: s1 and s2", "condition: s1 and nope")), {"collect_errors": True})):
